@@ -16,8 +16,10 @@ CONSTANTS Ops,       \* sequence of operator names; unary ones ("u-", "%") use a
           Triples    \* FALSE: walk pairs for every operator
                      \* TRUE : walk triples (the comparison order) once
 
-VARIABLES o, i, j, k       \* indices into Ops, Pool, Pool, Pool
-vars == <<o, i, j, k>>
+VARIABLES o, i, j, k,      \* indices into Ops, Pool, Pool, Pool
+          res              \* the defined result at the cursor (a function of
+                           \* o, i, j: kept in the state so that it is computed once)
+vars == <<o, i, j, k, res>>
 
 N == Len(Pool)
 Op == Ops[o]
@@ -26,24 +28,32 @@ B == Pool[j]
 C == Pool[k]
 Unary == Op \in UnaryOps
 
+\* the operator at the cursor applied by the definitions of ExcelValues
+Result(oo, ii, jj) == IF Ops[oo] \in UnaryOps THEN Apply1(Ops[oo], Pool[ii])
+                      ELSE Apply(Ops[oo], Pool[ii], Pool[jj])
+
 \* Init chooses the operator and the left operand (and, for triples, the
 \* middle one); the cursor then advances through the last operand.
 Init == /\ o \in (IF Triples THEN {1} ELSE 1..Len(Ops))
         /\ i \in 1..N
         /\ j \in (IF Triples THEN 1..N ELSE {1})
         /\ k = 1
+        /\ res = Result(o, i, j)
 
 NextB == /\ ~Triples /\ ~Unary /\ j < N          \* next right operand
-         /\ j' = j + 1 /\ UNCHANGED <<o, i, k>>
+         /\ j' = j + 1 /\ res' = Result(o, i, j + 1)
+         /\ UNCHANGED <<o, i, k>>
 NextC == /\ Triples /\ k < N                     \* next third operand
-         /\ k' = k + 1 /\ UNCHANGED <<o, i, j>>
+         /\ k' = k + 1 /\ UNCHANGED <<o, i, j, res>>
 Next == NextB \/ NextC
 Spec == Init /\ [][Next]_vars
 
-TypeOK == o \in 1..Len(Ops) /\ i \in 1..N /\ j \in 1..N /\ k \in 1..N
+TypeOK == /\ o \in 1..Len(Ops) /\ i \in 1..N /\ j \in 1..N /\ k \in 1..N
+          /\ res = Result(o, i, j)
 
-\* the defined result at the cursor
-R == IF Unary THEN Apply1(Op, A) ELSE Apply(Op, A, B)
+R == res
+
+B2N(p) == IF p THEN 1 ELSE 0
 
 Scalar(v) == IsNumV(v) \/ IsText(v) \/ IsBool(v) \/ IsBlank(v)   \* not an error
 
@@ -58,56 +68,66 @@ ErrLeftFirst == /\ IsErr(A) => R = A
                 /\ (~Unary /\ ~IsErr(A) /\ IsErr(B)) => R = B
 
 \* x / 0 = #DIV/0! whenever x is something arithmetic accepts
-DivZero == (Op = "/" /\ IsNumV(ToNum(A)) /\ Scalar(B) /\ ToNum(B) = Zero) => R = DIV0
+DivZeroCase == Op = "/" /\ Scalar(A) /\ Scalar(B) /\ IsNumV(ToNum(A)) /\ ToNum(B) = Zero
+DivZero == DivZeroCase => R = DIV0
 
 \* arithmetic: logicals, blanks and numeric text count as their numbers;
 \* other text is #VALUE!
 Coercion == (Op \in ArithOps /\ Scalar(A) /\ Scalar(B)) =>
-   /\ (IsNumV(ToNum(A)) /\ IsNumV(ToNum(B))) => R = Apply(Op, ToNum(A), ToNum(B))
-   /\ (ToNum(A) = VALUE \/ (IsNumV(ToNum(A)) /\ ToNum(B) = VALUE)) => R = VALUE
+   LET na == ToNum(A)  nb == ToNum(B)  r == R IN
+   /\ (IsNumV(na) /\ IsNumV(nb)) => r = Apply(Op, na, nb)
+   /\ (na = VALUE \/ (IsNumV(na) /\ nb = VALUE)) => r = VALUE
 
 \* exactly one of <, =, > holds; <>, <=, >= are the complements; a < b iff b > a
+\* (a comparison whose outcome the statement leaves open is not a logical)
+\* (the six outcomes depend on (a, b) only: looked at once, when the cursor is on "<")
+IsT(x) == x = TRUEV
+Trichotomy == (Op = "<" /\ Scalar(A) /\ Scalar(B)) =>
+   LET eq == Compare("=", A, B)   ne == Compare("<>", A, B)
+       lt == Compare("<", A, B)   gt == Compare(">", A, B)
+       le == Compare("<=", A, B)  ge == Compare(">=", A, B)
+   IN
+   /\ IsBool(eq) /\ IsBool(ne)
+   /\ IsT(ne) = ~IsT(eq)
+   /\ IsBool(lt) = IsBool(gt)
+   /\ IsBool(lt) =>
+        /\ IsBool(le) /\ IsBool(ge)
+        /\ B2N(IsT(lt)) + B2N(IsT(eq)) + B2N(IsT(gt)) = 1
+        /\ IsT(le) = ~IsT(gt)
+        /\ IsT(ge) = ~IsT(lt)
+        /\ IsT(lt) = IsT(Compare(">", B, A))
+   /\ IsT(eq) = IsT(Compare("=", B, A))
+
 T(op2, x, y) == Compare(op2, x, y) = TRUEV
-Known(op2, x, y) == IsBool(Compare(op2, x, y))
-Trichotomy == (Scalar(A) /\ Scalar(B)) =>
-   /\ Known("=", A, B) /\ Known("<>", A, B)
-   /\ T("<>", A, B) = ~T("=", A, B)
-   /\ Known("<", A, B) = Known(">", A, B)
-   /\ Known("<", A, B) =>
-        /\ Known("<=", A, B) /\ Known(">=", A, B)
-        /\ (IF T("<", A, B) THEN 1 ELSE 0) + (IF T("=", A, B) THEN 1 ELSE 0)
-             + (IF T(">", A, B) THEN 1 ELSE 0) = 1
-        /\ T("<=", A, B) = ~T(">", A, B)
-        /\ T(">=", A, B) = ~T("<", A, B)
-        /\ T("<", A, B) = T(">", B, A)
-   /\ T("=", A, B) = T("=", B, A)
 
 \* the type order: any number < any text < any logical
-TypeOrder == (Scalar(A) /\ Scalar(B) /\ ~IsBlank(A) /\ ~IsBlank(B)
+TypeOrder == (Op = "<" /\ Scalar(A) /\ Scalar(B) /\ ~IsBlank(A) /\ ~IsBlank(B)
               /\ Rank(A) < Rank(B)) => T("<", A, B)
 
 \* text compares without regard to case
-CaseBlind == (IsText(A) /\ IsText(B) /\ Lower(A[2]) = Lower(B[2])) => T("=", A, B)
+CaseBlind == (Op = "=" /\ IsText(A) /\ IsText(B) /\ Lower(A[2]) = Lower(B[2])) => T("=", A, B)
 
 \* & joins the renderings: blank is the empty text, logicals are TRUE/FALSE,
 \* an integral number has no decimal point, and a rendered number reads
 \* back as the same number
-ConcatRender ==
-   /\ (Op = "&" /\ Scalar(A) /\ Scalar(B) /\ ~IsU(R)) =>
-        /\ IsText(R) /\ R[2] = Render(A) \o Render(B)
-        /\ IsBlank(B) => R = Text(Render(A))
-        /\ IsBlank(A) => R = Text(Render(B))
-   /\ IsBool(A) => Render(A) \in {TrueText, FalseText}
-   /\ (IsNumV(A) /\ IsIntegral(A)) => \A p \in 1..Len(Render(A)) : Render(A)[p] # 46
-   /\ (IsNumV(A) /\ Render(A) # NoRender) => ParseNum(Render(A)) = A
+ConcatCase == Op = "&" /\ Scalar(A) /\ Scalar(B) /\ ~IsU(R)
+ConcatRender == Op = "&" =>
+   LET r == R  ra == Render(A) IN
+   /\ ConcatCase =>
+        /\ IsText(r) /\ r[2] = ra \o Render(B)
+        /\ IsBlank(B) => r = Text(ra)
+        /\ IsBlank(A) => r = Text(Render(B))
+   /\ IsBool(A) => ra \in {TrueText, FalseText}
+   /\ (IsNumV(A) /\ IsIntegral(A)) => \A p \in 1..Len(ra) : ra[p] # 46
+   /\ (IsNumV(A) /\ ra # NoRender) => ParseNum(ra) = A
 
 \* unary minus is subtraction from 0, percent is division by 100,
 \* + and * commute (after error propagation, which is left-first)
 Algebra ==
    /\ Op = "u-" => R = Apply("-", Zero, A)
    /\ Op = "%"  => R = Apply("/", A, IntV(100))
-   /\ (Op \in {"+", "*"} /\ Scalar(A) /\ Scalar(B) /\ ~IsU(R) /\ R # VALUE)
-        => R = Apply(Op, B, A)
+   /\ (Op \in {"+", "*"} /\ Scalar(A) /\ Scalar(B)) =>
+        LET r == R IN (~IsU(r) /\ r # VALUE) => r = Apply(Op, B, A)
 
 --------------------------------------------------------------------------
 (* the law of triple mode: <= is transitive on non-blank operands (so the  *)
@@ -123,15 +143,13 @@ Transitive == (Triples /\ NonBlankScalar(A) /\ NonBlankScalar(B) /\ NonBlankScal
 --------------------------------------------------------------------------
 (* export: one JSON line per state.  ante = which law antecedents held     *)
 (* here (the harness refuses a run in which a law was never exercised).    *)
-B2N(p) == IF p THEN 1 ELSE 0
-
 ExportPair ==
   PrintT(ToJson([at |-> <<o, i, j, k>>, op |-> Op, a |-> A, b |-> IF Unary THEN <<>> ELSE B, r |-> R,
      ante |-> [errL |-> B2N(IsErr(A)),
                errR |-> B2N(~Unary /\ ~IsErr(A) /\ IsErr(B)),
-               div0 |-> B2N(Op = "/" /\ IsNumV(ToNum(A)) /\ Scalar(B) /\ ToNum(B) = Zero),
-               tri  |-> B2N(Scalar(A) /\ Scalar(B) /\ Known("<", A, B)),
-               cat  |-> B2N(Op = "&" /\ Scalar(A) /\ Scalar(B) /\ ~IsU(R)),
+               div0 |-> B2N(DivZeroCase),
+               tri  |-> B2N(Op = "<" /\ Scalar(A) /\ Scalar(B) /\ IsBool(R)),
+               cat  |-> B2N(ConcatCase),
                coer |-> B2N(Op \in ArithOps /\ Scalar(A) /\ Scalar(B)
                             /\ (~IsNumV(A) \/ ~IsNumV(B)))]]))
 
